@@ -50,12 +50,12 @@ theorem recoverLabels_dup (isWord : Char → Bool) (W : WordClass isWord) :
 
 theorem toOvf_bin_extend {α} (c : Codec α) (f : OField α) (V : Valid f) (h1 : f.nvdim = 1) (rep : String) (w : Nat)
     (hrep : (rep = "bin4" ∧ w = 4) ∨ (rep = "bin8" ∧ w = 8)) :
-    toOvf c f rep true = .ok
+    toOvfE c f rep true = .ok
       { first := "# OOMMF OVF 2.0",
         lines := headerLines f true (String.ofList (joinSp (List.replicate 3 "field_x".toList))) ["Binary", toString w],
         body := .bin (c.enc true w (c.magic w) ++ (((flatPayload f).flatMap fun x => [x, c.zero, c.zero]).flatMap (c.enc true w)
                   ++ 10 :: footerBytes ["Binary", toString w])) } := by
-  unfold toOvf
+  unfold toOvfE
   have h3 : ¬ (f.mesh.region.ndim ≠ 3) := by simp [Region.ndim, V.pmin3]
   have hu : allSame f.mesh.region.units = true := by
     rw [V.units]; simp [allSame]
